@@ -5,7 +5,7 @@
 
 use crate::{error::panic_divide_by_0, rbig::RBig, repr::Repr};
 use core::{cmp::Ordering, mem};
-use dashu_base::{AbsOrd, Approximation, DivRem, UnsignedAbs};
+use dashu_base::{AbsOrd, Approximation, DivRem, FloatEncoding, UnsignedAbs};
 use dashu_int::{IBig, Sign, UBig};
 
 impl Repr {
@@ -77,32 +77,45 @@ impl Repr {
 
 /// Implementation of simplest_from_f32, simplest_from_f64
 macro_rules! impl_simplest_from_float {
-    ($f:ident) => {{
+    ($f:ident, $t:ty, $min_exp:literal) => {{
         if $f.is_infinite() || $f.is_nan() {
             return None;
         } else if $f == 0. {
             return Some(Self::ZERO);
         }
 
-        // get the range (f - ulp/2, f + ulp/2)
-        // if f is negative, then range will be flipped by simplest_in()
-        let mut est = Repr::try_from($f).unwrap();
-        est.numerator <<= 1;
-        est.denominator <<= 1;
-        let left = Self(
-            Repr {
-                numerator: &est.numerator + IBig::ONE,
-                denominator: est.denominator.clone(),
+        // The rounding interval of f = man * 2^exp is (f - gap_down / 2, f + gap_up / 2), where the
+        // gaps are the distances to the neighbouring floats. gap_up is always 2^exp, gap_down is
+        // half of that if |f| is a power of two (and the number below it is not subnormal).
+        // If f is negative, then range will be flipped by simplest_in()
+        let (man, exp) = $f.decode().unwrap();
+        let man = IBig::from(man);
+        let sign = man.sign();
+        let is_binade_start =
+            exp > $min_exp && man.clone().unsigned_abs() == UBig::ONE << (<$t>::MANTISSA_DIGITS as usize - 1);
+
+        // calculate the bounds in the unit of 2^(exp - 2)
+        let center: IBig = man << 2;
+        let inner = &center - sign * IBig::from(if is_binade_start { 1 } else { 2 });
+        let outer = center + sign * IBig::from(2);
+        let exp = exp as isize - 2;
+        let make = |n: IBig| -> Self {
+            if exp >= 0 {
+                Self(Repr {
+                    numerator: n << exp as usize,
+                    denominator: UBig::ONE,
+                })
+            } else {
+                Self(
+                    Repr {
+                        numerator: n,
+                        denominator: UBig::ONE << (-exp) as usize,
+                    }
+                    .reduce2(),
+                )
             }
-            .reduce(),
-        );
-        let right = Self(
-            Repr {
-                numerator: est.numerator - IBig::ONE,
-                denominator: est.denominator,
-            }
-            .reduce(),
-        );
+        };
+        let (left, right) = (make(outer), make(inner));
 
         // find the simplest float in the range
         let mut simplest = Self::simplest_in(left.clone(), right.clone());
@@ -161,7 +174,7 @@ impl RBig {
     /// );
     /// ```
     pub fn simplest_from_f32(f: f32) -> Option<Self> {
-        impl_simplest_from_float!(f)
+        impl_simplest_from_float!(f, f32, -149)
     }
 
     /// Find the simplest rational number in the rounding interval of the [f64] number.
@@ -192,7 +205,7 @@ impl RBig {
     ///     RBig::from_parts(22.into(), 7u8.into())
     /// );
     pub fn simplest_from_f64(f: f64) -> Option<Self> {
-        impl_simplest_from_float!(f)
+        impl_simplest_from_float!(f, f64, -1074)
     }
 
     /// Find the simplest rational number in the open interval `(lower, upper)`.
